@@ -1124,7 +1124,6 @@ package profile
 // but keep the allocator's callers-of-interest list, contention profiles drop the lock frames and keep nothing, every other
 // legacy profile drops the CPU-profiler frames and keeps nothing ----
 //@ func Profile.addLegacyFrameInfo nosafety
-//@   requires p != nil
 //@   ensures heap: callres("isProfileType#1", 0) ==> p.DropFrames == allocRxStr && p.KeepFrames == allocSkipRxStr
 //@   ensures known: p.DropFrames == allocRxStr || p.DropFrames == lockRxStr || p.DropFrames == cpuProfilerRxStr
 //@   ensures keep_only_heap: p.KeepFrames == allocSkipRxStr || p.KeepFrames == ""
